@@ -534,6 +534,6 @@ def run_malformed(case, rec):
 
 
 def parts(ctx):
-    return [Part('cli', run_case, strategy=cli_cases(), n=ctx.n(150, 2000), budget_s=ctx.n(120, 3000)),
-            Part('tables', run_table, strategy=table_cases(), n=ctx.n(4000, 100000), budget_s=ctx.n(100, 3000)),
-            Part('malformed', run_malformed, strategy=malformed_cases(), n=ctx.n(2000, 50000), budget_s=ctx.n(60, 2000))]
+    return [Part('cli', run_case, strategy=cli_cases(), n=ctx.n(300, 2000), budget_s=ctx.n(120, 3000)),
+            Part('tables', run_table, strategy=table_cases(), n=ctx.n(8000, 100000), budget_s=ctx.n(100, 3000)),
+            Part('malformed', run_malformed, strategy=malformed_cases(), n=ctx.n(4000, 50000), budget_s=ctx.n(60, 2000))]
